@@ -6,8 +6,11 @@ import (
 	"os"
 	"path/filepath"
 	"sort"
+	"strings"
 
 	"golang.org/x/tools/go/ssa"
+
+	"utilcheck/pred"
 )
 
 // Anchor fallback for pure renames of unexported helpers: /verif/anchors.json records, for the tree the rules were
@@ -19,6 +22,38 @@ import (
 type anchorFile struct {
 	Funcs map[string]map[string]string `json:"funcs"` // pkg → name → signature
 	Vars  map[string]map[string]string `json:"vars"`  // pkg → name → type
+	// Shapes: pkg → name → parameter and result types without parameter names, in order ("ordered") and as sorted
+	// multisets ("unordered") — the fallbacks for a rename that also renames or reorders parameters
+	Shapes map[string]map[string][2]string `json:"shapes"`
+}
+
+// sigShapes renders a signature without parameter names: in order, and with the parameter types sorted.
+func sigShapes(sig *types.Signature) (ordered, unordered string) {
+	var ps, rs []string
+	if tp := sig.TypeParams(); tp != nil {
+		for i := 0; i < tp.Len(); i++ {
+			ps = append(ps, "<tp:"+types.TypeString(tp.At(i).Constraint(), qual)+">")
+		}
+	}
+	nTP := len(ps)
+	for i := 0; i < sig.Params().Len(); i++ {
+		ps = append(ps, types.TypeString(sig.Params().At(i).Type(), qual))
+	}
+	for i := 0; i < sig.Results().Len(); i++ {
+		rs = append(rs, types.TypeString(sig.Results().At(i).Type(), qual))
+	}
+	join := func(xs []string) string {
+		out := ""
+		for _, x := range xs {
+			out += x + ";"
+		}
+		return out
+	}
+	ordered = join(ps) + "->" + join(rs)
+	sorted := append([]string{}, ps[nTP:]...)
+	sort.Strings(sorted)
+	unordered = join(ps[:nTP]) + join(sorted) + "->" + join(rs)
+	return
 }
 
 var anchors *anchorFile
@@ -39,14 +74,16 @@ func LoadAnchors(vdir string) {
 
 // WriteAnchors records the anchors of the loaded tree.
 func WriteAnchors(e *Env, vdir string) error {
-	a := anchorFile{Funcs: map[string]map[string]string{}, Vars: map[string]map[string]string{}}
+	a := anchorFile{Funcs: map[string]map[string]string{}, Vars: map[string]map[string]string{}, Shapes: map[string]map[string][2]string{}}
 	for name, sp := range e.P.ByName {
-		a.Funcs[name], a.Vars[name] = map[string]string{}, map[string]string{}
+		a.Funcs[name], a.Vars[name], a.Shapes[name] = map[string]string{}, map[string]string{}, map[string][2]string{}
 		for mn, m := range sp.Members {
 			switch x := m.(type) {
 			case *ssa.Function:
 				if x.Synthetic == "" {
 					a.Funcs[name][mn] = types.TypeString(x.Signature, qual)
+					o, u := sigShapes(x.Signature)
+					a.Shapes[name][mn] = [2]string{o, u}
 				}
 			case *ssa.Global:
 				a.Vars[name][mn] = types.TypeString(x.Type(), qual)
@@ -83,7 +120,104 @@ func (e *Env) renamedFunc(pkg, name string) *ssa.Function {
 	if len(cands) == 1 {
 		return sp.Func(cands[0])
 	}
+	// parameters renamed (same types in the same order), then parameters reordered (same multiset of types)
+	if shape, ok := anchors.Shapes[pkg][name]; ok && len(cands) == 0 {
+		for k := 0; k < 2; k++ {
+			var cs []string
+			for mn, m := range sp.Members {
+				f, isF := m.(*ssa.Function)
+				if !isF || f.Synthetic != "" {
+					continue
+				}
+				if _, known := anchors.Funcs[pkg][mn]; known {
+					continue
+				}
+				o, u := sigShapes(f.Signature)
+				if [2]string{o, u}[k] == shape[k] {
+					cs = append(cs, mn)
+				}
+			}
+			if len(cs) == 1 {
+				return sp.Func(cs[0])
+			}
+			if len(cs) > 1 {
+				return nil
+			}
+		}
+	}
 	return nil
+}
+
+// ParamPerm maps the parameter positions a rule was written against (the recorded anchor `name`) to the positions
+// of fn, when fn is that anchor after a reordering of its parameters: parameters are matched by type, equal types
+// keep their relative order. nil when fn has the recorded order (or nothing is recorded).
+func (e *Env) ParamPerm(pkg, name string, fn *ssa.Function) []int {
+	if anchors == nil || anchors.Shapes[pkg] == nil || fn == nil {
+		return nil
+	}
+	shape, ok := anchors.Shapes[pkg][name]
+	if !ok {
+		return nil
+	}
+	o, u := sigShapes(fn.Signature)
+	if o == shape[0] || u != shape[1] {
+		return nil
+	}
+	// recorded parameter types, in order (type parameters are bracketed and come first)
+	split := func(s string) []string {
+		var out []string
+		cur := ""
+		for _, part := range splitKeep(s[:indexOf(s, "->")]) {
+			cur = part
+			if len(cur) > 0 && !strings.HasPrefix(cur, "<tp:") {
+				out = append(out, cur)
+			}
+		}
+		return out
+	}
+	want := split(shape[0])
+	have := split(o)
+	if len(want) != len(have) {
+		return nil
+	}
+	used := make([]bool, len(have))
+	perm := make([]int, len(want))
+	for i, t := range want {
+		perm[i] = -1
+		for j, h := range have {
+			if !used[j] && h == t {
+				perm[i], used[j] = j, true
+				break
+			}
+		}
+		if perm[i] < 0 {
+			return nil
+		}
+	}
+	return perm
+}
+
+func indexOf(s, sub string) int {
+	for i := 0; i+len(sub) <= len(s); i++ {
+		if s[i:i+len(sub)] == sub {
+			return i
+		}
+	}
+	return len(s)
+}
+
+func splitKeep(s string) []string {
+	var out []string
+	cur := ""
+	for _, r := range s {
+		if r == ';' {
+			out = append(out, cur)
+			cur = ""
+			continue
+		}
+		cur += string(r)
+	}
+	return out
 }
 
 func (e *Env) renamedVar(pkg, name string) *ssa.Global {
@@ -136,4 +270,24 @@ func (e *Env) vname(pkg, name string) string {
 		return g.Name()
 	}
 	return name
+}
+
+// Permuted wraps an argument builder written for the recorded parameter order of anchor pkg.name so that it matches
+// fn's order when fn is that anchor with its parameters reordered.
+func (e *Env) Permuted(pkg, name string, fn *ssa.Function, mk func() []pred.Val) func() []pred.Val {
+	perm := e.ParamPerm(pkg, name, fn)
+	if perm == nil {
+		return mk
+	}
+	return func() []pred.Val {
+		args := mk()
+		if len(args) != len(perm) {
+			return args
+		}
+		out := make([]pred.Val, len(args))
+		for i, j := range perm {
+			out[j] = args[i]
+		}
+		return out
+	}
 }
